@@ -398,6 +398,14 @@ EXTRA_CASES = [
      "package p\n\nfunc h() {\n\ta = a + 1\n\tb.c = b.c + d()\n\ta = b + 1\n\ta = a - 1\n\te[i] = e[i] + e[j]\n\te[i] = e[j] + e[i]\n}\n"),
     ("chan-ops", "@@\nvar c, v expression\n@@\n-c <- v\n+send(c, v)\n",
      "package p\n\nfunc h() {\n\tch <- 1\n\tx.out <- f()\n\tv := <-ch\n\t_ = v\n\tselect {\n\tcase ch <- 2:\n\t}\n}\n"),
+    # an elided run that stands for nothing where the absence of the list is syntax (no '=' / 'default:' / bare return)
+    ("valuespec-dots", "@@\nvar x identifier\n@@\n-var x Old = ...\n+var x New = ...\n",
+     "package p\n\nvar a Old = mk(1)\n\nvar b Old\n\nvar e, g Old = mk(3), mk(4)\n\nfunc f() {\n\tvar c Old\n\tvar d Old = mk(2)\n\tuse(c, d)\n}\n"),
+    ("case-dots", "@@\n@@\n switch v {\n-case old, ...:\n+case renewed, ...:\n   ...\n }\n",
+     "package p\n\nfunc f(v int) {\n\tswitch v {\n\tcase old:\n\t\ta()\n\t}\n\tswitch v {\n\tcase old, 2, 3:\n\t\tb()\n\t}\n}\n"),
+    ("return-dots", "@@\n@@\n-return oldErr(...)\n+return newErr(...)\n",
+     "package p\n\nfunc f() error {\n\tif x {\n\t\treturn oldErr()\n\t}\n\treturn oldErr(1, 2)\n}\n"),
+    ("composite-empty", "@@\n@@\n-Old{...}\n+New{...}\n", "package p\n\nvar a = Old{}\nvar b = Old{1, 2}\nvar c = []Old{{}, {3}}\n"),
     ("unary-star", "@@\nvar p expression\n@@\n-*p = nil\n+reset(p)\n",
      "package p\n\nfunc h() {\n\t*a = nil\n\t*b.c = nil\n\t**d = nil\n\ta = nil\n\t*a = 0\n}\n"),
     ("slice-expr", "@@\nvar s, n expression\n@@\n-s[:n]\n+head(s, n)\n",
@@ -414,4 +422,5 @@ EXTRA_CASES = [
 
 
 def extra_pairs():
-    return [("extra:" + n, p.encode(), f.encode(), {"family": "extra:" + n}) for n, p, f in EXTRA_CASES]
+    # hand-written: the instantiated '+' pattern is admissible at every site, so the output must print and parse
+    return [("extra:" + n, p.encode(), f.encode(), {"family": "extra:" + n, "must_parse": True}) for n, p, f in EXTRA_CASES]
